@@ -9,14 +9,14 @@
   node is reached from the root through positions into which `dump` recurses (item of a list / tuple / set /
   frozenset, value of a dict entry, field of an instance dumped field-wise that passes the filter) below
   ancestors none of which has a handler (a handled ancestor is replaced as a whole: its subtree is not
-  visited).  `C20_same_arguments_everywhere` shows that such a node is dumped with the *same* serialize-method
+  visited; an object dumped through its own serialisation method is a leaf: what the method returns is emitted
+  as it is, only filtered by attribute *name* against the ignore lists — `C20_method_form`).  `C20_same_arguments_everywhere` shows that such a node is dumped with the *same* serialize-method
   name, ignore-attribute name, ignore list and configuration as the root and that its dump is found verbatim at
   the same path of the output; the handler, ignore-list and configured-name theorems for one node then hold at
   every depth.
 -/
 import JRV.Model.JsonClass
 import JRV.Lemmas.JsonClass
-import JRV.Generated
 
 set_option linter.unusedSimpArgs false
 set_option linter.unusedVariables false
@@ -44,6 +44,17 @@ def fieldWise (d : ClassDef) (sm : String) : Bool :=
   | .bean _ => true
   | .serial m _ _ _ _ => m != sm
   | _ => false
+
+/-- Is an instance of this class serialised through its own method (the `if hasattr(obj, serialize_method):`
+    branch of `dump`) when the serialisation method is called `sm`? -/
+def viaMethod (d : ClassDef) (sm : String) : Bool :=
+  match d.kind with
+  | .serial m _ _ _ _ => m == sm
+  | _ => false
+
+/-- The constructor arguments a serialisation method returns: a list, or a keyword dict. -/
+def serialParams (byDict : Bool) (ps : List String) (pvs : List PyVal) : PyVal :=
+  if byDict then PyVal.dict ((ps.zip pvs).map fun (k, x) => (.str k, x)) else .list pvs
 
 /-- `getattr(obj, ignore_attribute, []) + ignore` (`none`: the attribute is not a list). -/
 def ignoreListOf (d : ClassDef) (fs : List (String × PyVal)) (ia : String) (ig : List PyVal) : Option (List PyVal) :=
@@ -282,6 +293,7 @@ private theorem dump_fieldWise {c : String} {fs : List (String × PyVal)} {d : C
         exact ⟨hd, by simpa using hnd⟩
       | enum ms => simp [hk] at hf
       | decimal => simp [hk] at hf
+      | raising e => simp [hk] at hf
 
 /-- The shape of a successful field-wise dump. -/
 private theorem dumpBean_ok {c : String} {fs : List (String × PyVal)} {d : ClassDef} {r : PyVal} {jc : String}
@@ -311,7 +323,103 @@ private theorem dumpBean_ok {c : String} {fs : List (String × PyVal)} {d : Clas
             exact ⟨own, attrs, hown, ha, hd.symm, by simpa using hjc⟩
   · simp [raise] at hd
 
+/-- The shape of a successful dump through the object's own serialisation method. -/
+private theorem dump_viaMethod {c : String} {fs : List (String × PyVal)} {d : ClassDef} {r : PyVal}
+    {m : String} {byDict : Bool} {ps as : List String} {base : List (String × PyVal)}
+    (hh : handlerFor X.cfg (.obj c fs) = Option.none) (hc : X.env.lookup c = some d)
+    (hk : d.kind = .serial m byDict ps as base) (hm : m = sm)
+    (hd : dump X sm ia ig (.obj c fs) = .ok r) :
+    ∃ pvs avs own, lookupAll fs ps = some pvs ∧ lookupAll fs as = some avs ∧ getAttrD d fs ia (.list []) = .list own ∧
+      r = .dict ((.str jcKey, .list [.str (emitName d), serialParams byDict ps pvs]) ::
+            ((as.zip avs).filter fun (k, _) => !nameIgnored (own ++ ig) k).map fun (k, x) => (PyVal.str k, x)) := by
+  subst hm
+  unfold dump at hd
+  simp only [hh, hc] at hd
+  split at hd
+  · simp [raise] at hd
+  · split at hd
+    · simp [raise] at hd
+    · simp only [hk, beq_self_eq_true, ↓reduceIte] at hd
+      split at hd
+      · rename_i pvs avs hp ha
+        split at hd
+        · simp [raise] at hd
+        · split at hd
+          · rename_i own hown
+            simp only [pure, Except.pure, Except.ok.injEq] at hd
+            exact ⟨pvs, avs, own, hp, ha, hown, hd.symm⟩
+          · simp [raise] at hd
+      · simp [raise] at hd
+
+/-- Enum members and Decimals are dumped as the bare descriptor: no attribute at all. -/
+private theorem dump_enum_decimal {c : String} {fs : List (String × PyVal)} {d : ClassDef} {r : PyVal}
+    (hh : handlerFor X.cfg (.obj c fs) = Option.none) (hc : X.env.lookup c = some d)
+    (hk : (∃ ms, d.kind = .enum ms) ∨ d.kind = .decimal)
+    (hd : dump X sm ia ig (.obj c fs) = .ok r) : ∃ desc, r = .dict [(.str jcKey, desc)] := by
+  unfold dump at hd
+  simp only [hh, hc] at hd
+  split at hd
+  · simp [raise] at hd
+  · split at hd
+    · simp [raise] at hd
+    · rcases hk with ⟨ms, hk⟩ | hk
+      · simp only [hk] at hd
+        split at hd
+        · simp only [pure, Except.pure, Except.ok.injEq] at hd
+          exact ⟨_, hd.symm⟩
+        · simp [raise] at hd
+      · simp only [hk] at hd
+        split at hd
+        · simp only [pure, Except.pure, Except.ok.injEq] at hd
+          exact ⟨_, hd.symm⟩
+        · simp [raise] at hd
+
+private theorem dump_raising {c : String} {fs : List (String × PyVal)} {d : ClassDef} {r : PyVal} {e : String}
+    (hh : handlerFor X.cfg (.obj c fs) = Option.none) (hc : X.env.lookup c = some d) (hk : d.kind = .raising e)
+    (hd : dump X sm ia ig (.obj c fs) = .ok r) : False := by
+  unfold dump at hd
+  simp only [hh, hc] at hd
+  split at hd
+  · simp [raise] at hd
+  · split at hd
+    · simp [raise] at hd
+    · simp [hk, raise] at hd
+
 end lemmas
+
+/-- An attribute whose name is in the ignore list is not among the attributes emitted for an object dumped
+    through its serialisation method. -/
+private theorem lookupStr_filtered_none (il : List PyVal) (n : String) (hn : nameIgnored il n = true) :
+    ∀ (l : List (String × PyVal)),
+    lookupStr n ((l.filter fun (k, _) => !nameIgnored il k).map fun (k, x) => (PyVal.str k, x)) = Option.none
+  | [] => by simp [lookupStr]
+  | (k, x) :: rest => by
+    by_cases hk : k = n
+    · subst hk
+      simp [List.filter, hn, lookupStr_filtered_none il k hn rest]
+    · have hne : (k == n) = false := by simpa using hk
+      cases hik : nameIgnored il k with
+      | true => simp [List.filter, hik, lookupStr_filtered_none il n hn rest]
+      | false => simp [List.filter, hik, lookupStr, hne, lookupStr_filtered_none il n hn rest]
+
+/-- … and an attribute whose name is not in the list is emitted with the very value the method returned. -/
+private theorem lookupStr_filtered_some (il : List PyVal) (n : String) (x : PyVal) (hn : nameIgnored il n = false) :
+    ∀ (l : List (String × PyVal)), l.lookup n = some x →
+    lookupStr n ((l.filter fun (k, _) => !nameIgnored il k).map fun (k, x) => (PyVal.str k, x)) = some x
+  | [], h => by simp [List.lookup] at h
+  | (k, y) :: rest, h => by
+    simp only [List.lookup] at h
+    by_cases hk : n = k
+    · subst hk
+      simp only [beq_self_eq_true, Option.some.injEq] at h
+      subst h
+      simp [List.filter, hn, lookupStr]
+    · have hne : (n == k) = false := by simpa using hk
+      have hne' : (k == n) = false := by simpa using fun e : k = n => hk e.symm
+      simp only [hne] at h
+      cases hik : nameIgnored il k with
+      | true => simp [List.filter, hik, lookupStr_filtered_some il n x hn rest h]
+      | false => simp [List.filter, hik, lookupStr, hne', lookupStr_filtered_some il n x hn rest h]
 
 /- ---------- every depth ---------- -/
 
@@ -607,11 +715,8 @@ theorem C20_ignore_sources (d : ClassDef) (fs : List (String × PyVal)) (ia : St
   · intro h1 h2; simp [ignoreListOf, getAttrD, h1, h2]
   · intro h1 h2; simp [ignoreListOf, getAttrD, h1, h2]
 
-/-- **Ignore lists.**  In the dumped form of an instance (dumped field-wise), no key other than
-    "__jsonclass__" is a name listed in the object's own ignore list (instance attribute, else class attribute)
-    or in the `ignore` argument, and no stored field whose *value* is `in` that list (Python `==` against each
-    entry) appears. -/
-theorem C20_ignore (X : DumpCtx) (sm ia : String) (ig : List PyVal) (c : String) (fs : List (String × PyVal))
+/-- The field-wise case of `C20_ignore`, with the shape of the descriptor. -/
+theorem C20_ignore_fieldwise (X : DumpCtx) (sm ia : String) (ig : List PyVal) (c : String) (fs : List (String × PyVal))
     (d : ClassDef) (r : PyVal) (hh : handlerFor X.cfg (.obj c fs) = Option.none) (hc : X.env.lookup c = some d)
     (hf : fieldWise d sm = true) (hd : dump X sm ia ig (.obj c fs) = .ok r) :
     ∃ own attrs, getAttrD d fs ia (.list []) = .list own ∧
@@ -652,21 +757,99 @@ theorem C20_ignore (X : DumpCtx) (sm ia : String) (ig : List PyVal) (c : String)
         exact absurd h3.2 (by simp)
   · simp at hil
 
+/-- **The dumped form of an object that has the serialisation method in force**: the descriptor
+    `[class name, params]` followed by the attributes the method returned — in the method's order, each with the
+    very value the method returned (no recursive dump, no handler, no test of the value against the ignore
+    list) — *minus* those whose name is in `getattr(obj, ignore_attribute, []) + ignore`. -/
+theorem C20_method_form (X : DumpCtx) (sm ia : String) (ig : List PyVal) (c : String) (fs : List (String × PyVal))
+    (d : ClassDef) (r : PyVal) (m : String) (byDict : Bool) (ps as : List String) (base : List (String × PyVal))
+    (hh : handlerFor X.cfg (.obj c fs) = Option.none) (hc : X.env.lookup c = some d)
+    (hk : d.kind = .serial m byDict ps as base) (hm : m = sm) (hd : dump X sm ia ig (.obj c fs) = .ok r) :
+    ∃ pvs avs own, lookupAll fs ps = some pvs ∧ lookupAll fs as = some avs ∧ getAttrD d fs ia (.list []) = .list own ∧
+      r = .dict ((.str jcKey, .list [.str (emitName d), serialParams byDict ps pvs]) ::
+            ((as.zip avs).filter fun (k, _) => !nameIgnored (own ++ ig) k).map fun (k, x) => (PyVal.str k, x)) :=
+  dump_viaMethod X sm ia ig hh hc hk hm hd
+
+/-- **Ignore lists.**  In the dumped form of *any* instance — dumped field by field, or through its own
+    serialisation method, or an enum member or a Decimal — no key other than "__jsonclass__" is a name listed in
+    the `ignore` argument or in the object's own ignore list (instance attribute called `ia`, else class attribute,
+    inherited ones included).  For an instance dumped field by field, moreover, no stored field whose *value* is
+    `in` that list (Python `==` against each entry) appears; for an object dumped through its method the values
+    are not looked at (`C20_method_form`). -/
+theorem C20_ignore (X : DumpCtx) (sm ia : String) (ig : List PyVal) (c : String) (fs : List (String × PyVal))
+    (d : ClassDef) (r : PyVal) (hh : handlerFor X.cfg (.obj c fs) = Option.none) (hc : X.env.lookup c = some d)
+    (hd : dump X sm ia ig (.obj c fs) = .ok r) :
+    ∃ desc attrs, r = .dict ((.str jcKey, desc) :: attrs) ∧
+      (∀ n, (PyVal.str n ∈ ig ∨ ∃ own, getAttrD d fs ia (.list []) = .list own ∧ PyVal.str n ∈ own) →
+        lookupStr n attrs = Option.none) ∧
+      ((fieldWise d sm = true ∨ viaMethod d sm = true) → ∃ own, getAttrD d fs ia (.list []) = .list own) ∧
+      (fieldWise d sm = true → ∀ own, getAttrD d fs ia (.list []) = .list own → ∀ n x, fs.lookup n = some x →
+        (own ++ ig).any (fun e => pyEq e x) = true → lookupStr n attrs = Option.none) := by
+  have fw : fieldWise d sm = true → _ := fun hf => C20_ignore_fieldwise X sm ia ig c fs d r hh hc hf hd
+  have fwcase : fieldWise d sm = true → viaMethod d sm = false → ∃ desc attrs, r = .dict ((.str jcKey, desc) :: attrs) ∧
+      (∀ n, (PyVal.str n ∈ ig ∨ ∃ own, getAttrD d fs ia (.list []) = .list own ∧ PyVal.str n ∈ own) →
+        lookupStr n attrs = Option.none) ∧
+      ((fieldWise d sm = true ∨ viaMethod d sm = true) → ∃ own, getAttrD d fs ia (.list []) = .list own) ∧
+      (fieldWise d sm = true → ∀ own, getAttrD d fs ia (.list []) = .list own → ∀ n x, fs.lookup n = some x →
+        (own ++ ig).any (fun e => pyEq e x) = true → lookupStr n attrs = Option.none) := by
+    intro hf hv
+    obtain ⟨own, attrs, g1, g2, g3, g4⟩ := fw hf
+    refine ⟨_, attrs, g2, ?_, fun _ => ⟨own, g1⟩, ?_⟩
+    · rintro n (hn | ⟨own', ho, hn⟩)
+      · exact g3 n (Or.inr hn)
+      · rw [g1] at ho
+        simp only [PyVal.list.injEq] at ho
+        subst ho
+        exact g3 n (Or.inl hn)
+    · intro _ own' ho n x hx hany
+      rw [g1] at ho
+      simp only [PyVal.list.injEq] at ho
+      subst ho
+      exact g4 n x hx hany
+  cases hk : d.kind with
+  | bean init => exact fwcase (by simp [fieldWise, hk]) (by simp [viaMethod, hk])
+  | serial m byDict ps as base =>
+    by_cases hm : m = sm
+    · obtain ⟨pvs, avs, own, _, _, hown, hr⟩ := dump_viaMethod X sm ia ig hh hc hk hm hd
+      refine ⟨_, _, hr, ?_, fun _ => ⟨own, hown⟩, ?_⟩
+      · intro n hn
+        apply lookupStr_filtered_none
+        rw [nameIgnored_iff, List.mem_append]
+        rcases hn with hn | ⟨own', ho, hn⟩
+        · exact Or.inr hn
+        · rw [hown] at ho
+          simp only [PyVal.list.injEq] at ho
+          subst ho
+          exact Or.inl hn
+      · intro hf
+        simp [fieldWise, hk, hm] at hf
+    · exact fwcase (by simp [fieldWise, hk, hm]) (by simp [viaMethod, hk, hm])
+  | enum ms =>
+    obtain ⟨desc, hr⟩ := dump_enum_decimal X sm ia ig hh hc (Or.inl ⟨ms, hk⟩) hd
+    exact ⟨desc, [], hr, fun _ _ => by simp [lookupStr], by simp [fieldWise, viaMethod, hk], by simp [fieldWise, hk]⟩
+  | decimal =>
+    obtain ⟨desc, hr⟩ := dump_enum_decimal X sm ia ig hh hc (Or.inr hk) hd
+    exact ⟨desc, [], hr, fun _ _ => by simp [lookupStr], by simp [fieldWise, viaMethod, hk], by simp [fieldWise, hk]⟩
+  | raising e => exact (dump_raising X sm ia ig hh hc hk hd).elim
+
 /-- **Ignore lists at every depth.**  The same `ignore` argument reaches every nested dump: for an instance
-    found at any visited path of the value, the conclusions of `C20_ignore` hold for the dict found at that path
-    of the output, with the `ignore` list of the *top-level* call. -/
+    found at any visited path of the value — whatever its class shape, dumped field by field or through its own
+    serialisation method — the conclusions of `C20_ignore` hold for the dict found at that path of the output,
+    with the `ignore` list of the *top-level* call. -/
 theorem C20_ignore_everywhere (X : DumpCtx) (sm ia : String) (ig : List PyVal) (p : List Step) (root out : PyVal)
     (c : String) (fs : List (String × PyVal)) (d : ClassDef)
     (hd : dump X sm ia ig root = .ok out) (hw : walk X sm ia ig root p = some (.obj c fs))
-    (hh : handlerFor X.cfg (.obj c fs) = Option.none) (hc : X.env.lookup c = some d) (hf : fieldWise d sm = true) :
-    ∃ own attrs, getAttrD d fs ia (.list []) = .list own ∧
-      outAt out p = some (.dict ((.str jcKey, .list [.str (emitName d), .list []]) :: attrs)) ∧
-      (∀ n, (PyVal.str n ∈ own ∨ PyVal.str n ∈ ig) → lookupStr n attrs = Option.none) ∧
-      (∀ n x, fs.lookup n = some x → (own ++ ig).any (fun e => pyEq e x) = true → lookupStr n attrs = Option.none) := by
+    (hh : handlerFor X.cfg (.obj c fs) = Option.none) (hc : X.env.lookup c = some d) :
+    ∃ desc attrs, outAt out p = some (.dict ((.str jcKey, desc) :: attrs)) ∧
+      (∀ n, (PyVal.str n ∈ ig ∨ ∃ own, getAttrD d fs ia (.list []) = .list own ∧ PyVal.str n ∈ own) →
+        lookupStr n attrs = Option.none) ∧
+      ((fieldWise d sm = true ∨ viaMethod d sm = true) → ∃ own, getAttrD d fs ia (.list []) = .list own) ∧
+      (fieldWise d sm = true → ∀ own, getAttrD d fs ia (.list []) = .list own → ∀ n x, fs.lookup n = some x →
+        (own ++ ig).any (fun e => pyEq e x) = true → lookupStr n attrs = Option.none) := by
   obtain ⟨r, h1, h2⟩ := C20_same_arguments_everywhere X sm ia ig p root out _ hd hw
-  obtain ⟨own, attrs, g1, g2, g3, g4⟩ := C20_ignore X sm ia ig c fs d r hh hc hf h1
+  obtain ⟨desc, attrs, g2, g3, g4, g5⟩ := C20_ignore X sm ia ig c fs d r hh hc h1
   subst g2
-  exact ⟨own, attrs, g1, h2, g3, g4⟩
+  exact ⟨desc, attrs, h2, g3, g4, g5⟩
 
 /-- A type that has an entry in the handler table (even a `None` one) is a known field type:
     `known_types = SUPPORTED_TYPES + tuple(config.serialize_handlers)`. -/
@@ -771,6 +954,7 @@ theorem C20_unsupported_no_failure (X : DumpCtx) (sm ia : String) (ig : List PyV
       simp [this]
     | enum ms => simp [hk] at hf
     | decimal => simp [hk] at hf
+    | raising e => simp [hk] at hf
   unfold ignoreListOf at hil
   split at hil
   · rename_i own hown
@@ -893,19 +1077,19 @@ end frame
 
 /-- **Serialisation method.**  An instance of a class that defines a method `m` is serialised through that
     method exactly when `m` is the name in force; with any other name in force (in particular when the
-    configuration names another method than the default one the class defines) it is dumped field-wise. -/
+    configuration names another method than the default one the class defines) it is dumped field-wise.
+    Through the method: the attributes it returns are emitted verbatim, except those named by the ignore lists. -/
 theorem C20_names_method (X : DumpCtx) (sm ia : String) (ig : List PyVal) (c : String) (fs : List (String × PyVal))
     (d : ClassDef) (m : String) (byDict : Bool) (ps as : List String) (base : List (String × PyVal))
     (hh : handlerFor X.cfg (.obj c fs) = Option.none) (hc : X.env.lookup c = some d)
     (hk : d.kind = .serial m byDict ps as base) (hnd : namesDistinct (fs.map (·.1)) = true)
     (hsm : (fs.lookup sm).isNone = true ∧ (d.classAttrs.lookup sm).isNone = true) :
     (m ≠ sm → dump X sm ia ig (.obj c fs) = dumpBean X sm ia ig d c (emitName d) fs) ∧
-    (m = sm → ∀ pvs avs, lookupAll fs ps = some pvs → lookupAll fs as = some avs →
-      as.contains jcKey = false → namesDistinct as = true →
+    (m = sm → ∀ pvs avs own, lookupAll fs ps = some pvs → lookupAll fs as = some avs →
+      as.contains jcKey = false → namesDistinct as = true → getAttrD d fs ia (.list []) = .list own →
       dump X sm ia ig (.obj c fs) =
-        .ok (.dict ((.str jcKey, .list [.str (emitName d),
-              if byDict then PyVal.dict ((ps.zip pvs).map fun (k, x) => (.str k, x)) else .list pvs]) ::
-            (as.zip avs).map fun (k, x) => (PyVal.str k, x)))) := by
+        .ok (.dict ((.str jcKey, .list [.str (emitName d), serialParams byDict ps pvs]) ::
+            ((as.zip avs).filter fun (k, _) => !nameIgnored (own ++ ig) k).map fun (k, x) => (PyVal.str k, x)))) := by
   have h1 : (fs.lookup sm).isSome = false := by cases h : fs.lookup sm <;> simp_all
   have h2 : (d.classAttrs.lookup sm).isSome = false := by cases h : d.classAttrs.lookup sm <;> simp_all
   constructor
@@ -913,11 +1097,29 @@ theorem C20_names_method (X : DumpCtx) (sm ia : String) (ig : List PyVal) (c : S
     have : (m == sm) = false := by simpa using hne
     unfold dump
     simp [hh, hc, hnd, h1, h2, hk, this]
-  · intro he pvs avs hp ha hj hda
+  · intro he pvs avs own hp ha hj hda hown
     subst he
     unfold dump
     have hj' : jcKey ∉ as := by simpa using hj
-    simp [hh, hc, hnd, h1, h2, hk, hp, ha, hj', hda, pure, Except.pure]
+    simp [hh, hc, hnd, h1, h2, hk, hp, ha, hj', hda, hown, serialParams, pure, Except.pure]
+
+/-- The attributes an object's serialisation method returns are emitted with the very values it returned: an
+    attribute whose name is not in the ignore lists is found under its name with the stored value itself —
+    not its dump (a tuple stays a tuple, an instance stays an instance, no handler is applied). -/
+theorem C20_method_attrs_verbatim (X : DumpCtx) (sm ia : String) (ig : List PyVal) (c : String) (fs : List (String × PyVal))
+    (d : ClassDef) (r : PyVal) (m : String) (byDict : Bool) (ps as : List String) (base : List (String × PyVal))
+    (hh : handlerFor X.cfg (.obj c fs) = Option.none) (hc : X.env.lookup c = some d)
+    (hk : d.kind = .serial m byDict ps as base) (hm : m = sm) (hd : dump X sm ia ig (.obj c fs) = .ok r) :
+    ∃ desc attrs own avs, r = .dict ((.str jcKey, desc) :: attrs) ∧ getAttrD d fs ia (.list []) = .list own ∧
+      lookupAll fs as = some avs ∧
+      ∀ n x, (as.zip avs).lookup n = some x → PyVal.str n ∉ own ++ ig → lookupStr n attrs = some x := by
+  obtain ⟨pvs, avs, own, _, ha, hown, hr⟩ := dump_viaMethod X sm ia ig hh hc hk hm hd
+  refine ⟨_, _, own, avs, hr, hown, ha, ?_⟩
+  intro n x hl hn
+  apply lookupStr_filtered_some _ _ _ _ _ hl
+  cases h : nameIgnored (own ++ ig) n with
+  | false => rfl
+  | true => exact absurd ((nameIgnored_iff _ _).mp h) hn
 
 /-- **Ignore attribute.**  Only the attribute called `ia` is read: with no stored and no class attribute of
     that name the object's own ignore list is empty — whatever is stored under any other name, such as the
@@ -973,6 +1175,19 @@ example : fieldWise { module := "pkg", name := "Ser", kind := .serial "_serializ
 example : walk exX20 "to_json" "_skip" [.str "gone"] exVal20 [.item 0, .field "q"] = Option.none := by decide +kernel
 example : isKnown exX20 (.obj "Ser" [("p", .int 5)]) = false := by decide +kernel
 
+/-- Non-vacuity of the serialisation-method case of `C20_ignore`: `SerI` defines the method in force ("to_json"),
+    its class-level ignore list names the attribute "secret", the call's `ignore` argument names "tmp": neither is
+    transmitted, "keep" is — with the tuple the method returned (not converted to a list). -/
+private def exSerI : ClassDef :=
+  { module := "pkg", name := "SerI", kind := .serial "to_json" false ["p"] ["secret", "keep", "tmp"] [],
+    classAttrs := [("_skip", .list [.str "secret"])] }
+example : dump { exX20 with env := [("SerI", exSerI)] } "to_json" "_skip" [.str "tmp"]
+      (.obj "SerI" [("p", .int 5), ("secret", .str "s3"), ("keep", .tuple [.int 1]), ("tmp", .int 0)]) =
+    .ok (.dict [(.str "__jsonclass__", .list [.str "pkg.SerI", .list [.int 5]]), (.str "keep", .tuple [.int 1])]) := by
+  simp [dump, handlerFor, exX20, exSerI, typeName, List.lookup, namesDistinct, emitName, getAttrD, lookupAll, nameIgnored,
+    pyEq, numEq, asInt?, jcKey, pure, Except.pure]
+example : viaMethod exSerI "to_json" = true ∧ fieldWise exSerI "to_json" = false := by decide +kernel
+
 /-- Non-vacuity of `C20_unsupported_no_failure`: an object holding an instance of an unhandled class directly in
     a field (nothing is required of it) next to a supported value. -/
 example : ∃ attrs, dump exX20 "to_json" "_skip" [] (.obj "Holder" [("x", .obj "Ser" [("p", .int 5)]), ("t", .int 1)]) =
@@ -987,30 +1202,5 @@ example : ∃ attrs, dump exX20 "to_json" "_skip" [] (.obj "Holder" [("x", .obj 
       rcases hm with ⟨rfl, rfl⟩ | ⟨rfl, rfl⟩
       · exact absurd hk (by decide +kernel)
       · exact ⟨⟨.int 1, by unfold dump; simp [handlerFor, exX20, typeName, List.lookup, pure, Except.pure]⟩, Or.inr rfl⟩)
-
-/- ---------- facts re-extracted from the source ---------- -/
-
-/-- The handler lookup `config.serialize_handlers[type(obj)]` precedes every `isinstance` test of `dump` and a
-    non-`None` handler's result is returned as it is: the outer match of the model's `dump` (`C20_handler_step`). -/
-theorem C20_gen_handlerLookupFirst : Generated.handlerLookupFirst = some JsonClass.handlerLookupFirst := by decide
-
-/-- The three recursive `dump(...)` calls (list items, dict values, field values) forward `serialize_method`,
-    `ignore_attribute`, `ignore` and `config` unchanged, as `dumpList`, `dumpKVs` and `dumpFields` do. -/
-theorem C20_gen_dumpCalls : Generated.dumpCalls = some dumpCallSites := by decide
-
-/-- The handler is called with `(obj, serialize_method, ignore_attribute, ignore, config)`. -/
-theorem C20_gen_handlerCallArgs : Generated.handlerCallArgs = some JsonClass.handlerCallArgs := by decide
-
-/-- `known_types` includes `tuple(config.serialize_handlers)` (`isKnown`, `C20_handled_type_is_known`). -/
-theorem C20_gen_knownTypes : Generated.knownTypesIncludeHandlers = some JsonClass.knownTypesIncludeHandlers := by decide
-
-/-- Ignore-list assembly and both uses of it (`dumpBean`). -/
-theorem C20_gen_ignoreAssembly : Generated.ignoreAssembly = some JsonClass.ignoreAssembly := by decide
-
-/-- `x or config.x` normalisation of the three optional arguments (`dumpTop`, `C20_names_defaults`). -/
-theorem C20_gen_dumpDefaults : Generated.dumpDefaults = some JsonClass.dumpDefaults := by decide
-
-/-- The attribute names read from the object are the variables holding the names in force, never a literal. -/
-theorem C20_gen_attributeNames : Generated.attributeNamesConsulted = some JsonClass.attributeNamesConsulted := by decide
 
 end JRV.Props
